@@ -66,6 +66,18 @@ def gen(ctx):
                           plan=[fail_cfr(0, E["ENOSYS"]), ("fail", E["EINTR"], 0, "read", 2, "{src}")], label="EINTR"))
         cases.append(Case(5000, driver="parfile", workers=1, bs=2048,
                           plan=[fail_cfr(0, E["ENOSYS"]), ("fail", E["EINTR"], 0, "write", 1, "{dst}")], label="EINTR write"))
+    # 2b. the user-space fallback under REAL concurrency: many blocks of one file in flight on several pool workers
+    # (they share one pair of descriptors), threads held at random system-call entries
+    for errno in (E["ENOSYS"], E["EXDEV"]):
+        for w in (2, 4, 8):
+            for sd in ((1, 2) if quick else (1, 2, 3, 4, 5, 6)):
+                c = Case(64 * B + 123, driver="parblock", workers=w, bs=B, reflink="never", plan=[fail_cfr(0, errno)],
+                         label="fallback, %d workers, 65 blocks" % w)
+                c.seed = sd * 1000 + w
+                cases.append(c)
+    c = Case(64 * B + 123, driver="parfile", workers=4, bs=B, reflink="never", plan=[fail_cfr(0, E["ENOSYS"])], label="fallback parfile")
+    c.seed = 77
+    cases.append(c)
     # 3. clone unsupported answers, extent map unsupported
     for driver in drivers:
         for errno in (E["EOPNOTSUPP"], E["EINVAL"], E["EXDEV"]):
